@@ -41,6 +41,12 @@ def t3(rep, tier, seed):
             for b2 in itertools.combinations_with_replacement(pool[:5], k):
                 dom.append({"b1": [list(x) for x in b1], "b2": [list(x) for x in b2][::-1]})
     # five bins with many coinciding sums (where a de-duplication key that forgets multiplicities or order goes wrong)
+    # the same items stored in different orders in different bins (contents are lists, not sets), with empty and non-empty partners
+    poolo = [[], [1, 2], [2, 1], [4], [1, 2, 2], [2, 1, 2]]
+    for k in (2, 3):
+        for b1 in itertools.combinations_with_replacement(poolo, k):
+            for b2 in itertools.permutations(([], [4], [1, 2])[:k] if k == 3 else ([], [4]), k):
+                dom.append({"b1": [list(x) for x in b1], "b2": [list(x) for x in b2]})
     pool5 = [[], [1], [2]] if tier == "quick" else [[], [1], [2], [1, 1]]
     for b1 in itertools.combinations_with_replacement(pool5, 5):
         for b2 in itertools.combinations_with_replacement(pool5, 5):
